@@ -2,6 +2,8 @@
 //!   verif_replay <unit> find [args]      -> search small inputs for a spec violation on the real code
 //!   verif_replay <unit> replay <json>    -> re-run one recorded witness
 //! Output: one JSON object per line on stdout.
+mod u10;
+mod u2;
 mod u3;
 mod u9;
 mod util;
@@ -16,6 +18,10 @@ fn main() {
   let code = match (args[1].as_str(), args[2].as_str()) {
     ("u3", "find") => u3::find(rest),
     ("u3", "replay") => u3::replay(rest),
+    ("u2", "find") => u2::find(rest),
+    ("u2", "replay") => u2::replay(rest),
+    ("u10", "find") => u10::find(rest),
+    ("u10", "replay") => u10::replay(rest),
     ("u9", "find") => u9::find(rest),
     ("u9", "replay") => u9::replay(rest),
     _ => {
